@@ -907,7 +907,8 @@ class SoftwareSwitchBase (object):
     if isinstance(nw, vlan):
       nw = nw.payload
     if isinstance(nw, ipv4):
-      nw.tos = action.nw_tos
+      # nw_tos carries the six DSCP bits; leave the two ECN bits alone
+      nw.tos = (action.nw_tos & 0xfc) | (nw.tos & 0x03)
     return packet
   def _action_set_tp_src (self, action, packet, in_port):
     nw = packet.payload
